@@ -686,3 +686,376 @@ Proof.
   assert (H : ~ valid (MAXU + 1)) by (unfold valid; lia).
   destruct (invalid_slot_writers (cold_load ex_file) (MAXU + 1) ex_zero_rec FPasswd [] H) as [H1 _]. exact H1.
 Qed.
+
+(* ------------------------------------------------------------------ refused writes and planted disagreement *)
+Lemma bupd_same d k v : bupd d k v k = v.
+Proof. unfold bupd. rewrite Z.eqb_refl. reflexivity. Qed.
+Lemma bupd_other d k v x : x <> k -> bupd d k v x = d x.
+Proof. unfold bupd. intros H. destruct (Z.eqb_spec x k); congruence. Qed.
+
+Lemma agree_is_except s b : Agree s b -> AgreeExcept s b (fun _ => false).
+Proof.
+  intros HA. pose proof (fun u => agree_int32 s b u HA) as Hi. destruct HA as [Hl Ha]. split; [exact Hl|].
+  intros u Hu. destruct (Ha u Hu) as [H1 H2]. split; [exact H1|]. split; [apply Hi; exact Hu|]. intros _. exact H2.
+Qed.
+Lemma except_none_is_agree s b d : AgreeExcept s b d -> (forall u, valid u -> d u = false) -> Agree s b.
+Proof.
+  intros [Hl Ha] Hd. split; [exact Hl|]. intros u Hu. destruct (Ha u Hu) as [H1 [_ H3]]. split; [exact H1|apply H3, Hd; exact Hu].
+Qed.
+
+(* a store into the segment alone: arithmetic follows, the slot becomes dirty *)
+Lemma shm_store_except s b d u m : AgreeExcept s b d -> valid u -> int32 m ->
+  AgreeExcept (mkst (upd (shm s) (u - 1) m) (file s)) (upd b u m) (bupd d u true).
+Proof.
+  intros [Hl Ha] Hu Hm. split; [exact Hl|]. cbn [shm file]. intros u' Hu'.
+  destruct (Z.eq_dec u' u) as [->|Hne].
+  - rewrite !upd_same, bupd_same. split; [reflexivity|]. split; [exact Hm|]. discriminate.
+  - rewrite upd_other by lia. rewrite (upd_other b) by exact Hne. rewrite bupd_other by exact Hne. apply Ha. exact Hu'.
+Qed.
+
+(* a successful SetUMoney: the three views of the slot are equal afterwards WHATEVER the file held, the slot is clean *)
+Lemma set_umoney_except s b d u m : AgreeExcept s b d -> valid u -> int32 m ->
+  AgreeExcept (fst (set_umoney s u m)) (upd b u m) (bupd d u false) /\ snd (set_umoney s u m) = OVal m.
+Proof.
+  intros [Hl Ha] Hu Hm. rewrite set_umoney_valid by exact Hu. cbn [fst snd]. split; [|reflexivity].
+  pose proof (money_pos_fits u (file s) Hu Hl) as Hfit.
+  split; cbn [file shm].
+  - rewrite write_at_length by (rewrite enc32_length; exact Hfit). exact Hl.
+  - intros u' Hu'. destruct (Z.eq_dec u' u) as [->|Hne].
+    + rewrite !upd_same. split; [reflexivity|]. split; [exact Hm|]. intros _.
+      rewrite money_field_at. apply field_at_write_same; assumption.
+    + rewrite upd_other by lia. rewrite (upd_other b) by exact Hne. rewrite bupd_other by exact Hne.
+      destruct (Ha u' Hu') as [Hs [Hi Hf]]. split; [exact Hs|]. split; [exact Hi|]. intros Hd.
+      rewrite money_field_at. rewrite field_at_write_other; [rewrite <- money_field_at; apply Hf; exact Hd|exact Hfit|].
+      apply money_pos_apart; auto.
+Qed.
+
+Lemma refused_set_valid s u m : valid u ->
+  refused_set s u m = (mkst (upd (shm s) (u - 1) m) (file s), OErr m ERR_IO).
+Proof.
+  intros H. unfold refused_set. rewrite (valid_guard u H). cbv zeta.
+  destruct (valid_index u H) as [Hw Hr]. rewrite Hw, Hr. cbn [negb]. rewrite (valid_guard' u H). reflexivity.
+Qed.
+
+Lemma de_value_int32 b u m : int32 (b u) -> int32 m -> ((m < 0 /\ b u < - m) \/ int32 (b u + m)) ->
+  int32 (de_value b u m) /\
+  (if (m <? 0) && (b u <? - m) then 0 else wrap32 (b u + m)) = de_value b u m.
+Proof.
+  intros Hb Hm Hsum. unfold de_value. destruct ((m <? 0) && (b u <? - m)) eqn:E.
+  - split; [exact int32_0|reflexivity].
+  - assert (Hin : int32 (b u + m)).
+    { destruct Hsum as [[H1 H2]|H]; [|exact H]. apply andb_false_iff in E. destruct E as [E|E]; apply Z.ltb_ge in E; lia. }
+    split; [exact Hin|apply wrap32_small; exact Hin].
+Qed.
+
+Lemma write_outside_except s b d p (bs : list Z) : AgreeExcept s b d -> (p + length bs <= length (file s))%nat ->
+  (forall u, valid u -> (money_pos u + 4 <= p \/ p + length bs <= money_pos u)%nat) ->
+  AgreeExcept (mkst (shm s) (write_at (file s) p bs)) b d.
+Proof.
+  intros [Hl Ha] Hfit Hout. split; cbn [file shm].
+  - rewrite write_at_length by exact Hfit. exact Hl.
+  - intros u Hu. destruct (Ha u Hu) as [Hs [Hi Hf]]. split; [exact Hs|]. split; [exact Hi|]. intros Hd.
+    rewrite money_field_at, field_at_write_outside; [rewrite <- money_field_at; apply Hf; exact Hd|exact Hfit|apply Hout; exact Hu].
+Qed.
+
+(* a whole-record write-back: the cached balance lands in the file, the slot is clean *)
+Lemma sync_update_except s b d u (rec : list Z) : AgreeExcept s b d -> valid u -> length rec = Z.to_nat RECSZ ->
+  AgreeExcept (fst (passwd_sync_update s u rec)) b (bupd d u false) /\ snd (passwd_sync_update s u rec) = OVal (b u).
+Proof.
+  intros [Hl Ha] Hu Hr. destruct (Ha u Hu) as [Hsu [Hiu _]].
+  assert (Hfld : money_field (file (fst (passwd_sync_update s u rec))) u = shm s (u - 1))
+    by (apply sync_update_field; try assumption; rewrite Hsu; exact Hiu).
+  rewrite sync_update_valid in * by exact Hu. cbn [fst snd file shm] in *. rewrite Hsu in Hfld. split; [|rewrite Hsu; reflexivity].
+  pose proof (rec_fits u (file s) Hu Hl) as Hfit.
+  assert (Hlen : length (rec_with_money rec (b u)) = Z.to_nat RECSZ) by (apply rec_with_money_length; exact Hr).
+  rewrite Hsu. split; cbn [file shm].
+  - rewrite write_at_length by (rewrite Hlen; exact Hfit). exact Hl.
+  - intros u' Hu'. destruct (Z.eq_dec u' u) as [->|Hne].
+    + split; [exact Hsu|]. split; [exact Hiu|]. intros _. exact Hfld.
+    + rewrite bupd_other by exact Hne. destruct (Ha u' Hu') as [Hs [Hi Hf]]. split; [exact Hs|]. split; [exact Hi|]. intros Hd.
+      rewrite money_field_at, field_at_write_outside; [rewrite <- money_field_at; apply Hf; exact Hd|rewrite Hlen; exact Hfit|].
+      rewrite Hlen. apply money_pos_outside_rec; assumption.
+Qed.
+
+(* one step, refused writes and planted disagreement included *)
+Lemma xstep_except s b d x : AgreeExcept s b d -> xop_ok b x ->
+  AgreeExcept (fst (xstep s x)) (fst (fst (xspec_step b d x))) (snd (fst (xspec_step b d x))) /\
+  snd (xstep s x) = snd (xspec_step b d x).
+Proof.
+  intros HA Hok. pose proof HA as [Hl Ha].
+  destruct x as [o|o|u m|u m]; cbn [xstep].
+  - (* the call goes through *)
+    destruct o as [u m|u m|u|u rec|u k bs]; cbn [step xspec_step spec_step fst snd] in *.
+    + destruct Hok as [Hu Hm]. destruct (set_umoney_except s b d u m HA Hu Hm) as [H1 H2]. split; [exact H1|exact H2].
+    + destruct Hok as [Hu [Hm Hsum]]. destruct (Ha u Hu) as [Hs [Hi _]].
+      destruct (de_value_int32 b u m Hi Hm Hsum) as [Hv Heq].
+      unfold de_umoney. rewrite (valid_guard u Hu). rewrite money_of_valid by exact Hu. rewrite Hs.
+      assert (E : (if (m <? 0) && (b u <? - m) then set_umoney s u 0 else set_umoney s u (wrap32 (b u + m))) =
+                  set_umoney s u (de_value b u m)).
+      { rewrite <- Heq. destruct ((m <? 0) && (b u <? - m)); reflexivity. }
+      rewrite E. cbv zeta. cbn [fst snd]. fold (de_value b u m).
+      destruct (set_umoney_except s b d u (de_value b u m) HA Hu Hv) as [H1 H2]. split; [exact H1|exact H2].
+    + rewrite money_of_valid by exact Hok. destruct (Ha u Hok) as [Hs _]. rewrite Hs. split; [exact HA|reflexivity].
+    + destruct Hok as [Hu Hr]. destruct (sync_update_except s b d u rec HA Hu Hr) as [H1 H2]. split; [exact H1|exact H2].
+    + destruct Hok as [Hu Hb]. unfold passwd_update_field. rewrite (uid_is_valid_true u Hu). cbn [negb fst snd]. split; [|reflexivity].
+      apply write_outside_except; [exact HA| |].
+      * rewrite Hb. apply part_fits; [exact Hu|exact Hl].
+      * intros u' Hu'. rewrite Hb. apply part_outside; assumption.
+  - (* the file refuses the write *)
+    destruct o as [u m|u m|u|u rec|u k bs]; cbn [refused_step xspec_step fst snd] in *.
+    + destruct Hok as [Hu Hm]. rewrite refused_set_valid by exact Hu. cbn [fst snd]. split; [|reflexivity].
+      apply shm_store_except; assumption.
+    + destruct Hok as [Hu [Hm Hsum]]. destruct (Ha u Hu) as [Hs [Hi _]].
+      destruct (de_value_int32 b u m Hi Hm Hsum) as [Hv Heq].
+      unfold refused_de. rewrite (valid_guard u Hu). rewrite money_of_valid by exact Hu. rewrite Hs.
+      assert (E : (if (m <? 0) && (b u <? - m) then refused_set s u 0 else refused_set s u (wrap32 (b u + m))) =
+                  refused_set s u (de_value b u m)).
+      { rewrite <- Heq. destruct ((m <? 0) && (b u <? - m)); reflexivity. }
+      rewrite E. rewrite refused_set_valid by exact Hu. cbn [fst snd]. split; [|reflexivity].
+      apply shm_store_except; assumption.
+    + cbn [step]. rewrite money_of_valid by exact Hok. destruct (Ha u Hok) as [Hs _]. rewrite Hs. split; [exact HA|reflexivity].
+    + destruct Hok as [Hu Hr]. rewrite (uid_is_valid_true u Hu). cbn [negb]. rewrite money_of_valid by exact Hu.
+      destruct (Ha u Hu) as [Hs _]. rewrite Hs. split; [exact HA|reflexivity].
+    + destruct Hok as [Hu Hb]. rewrite (uid_is_valid_true u Hu). cbn [negb]. split; [exact HA|reflexivity].
+  - destruct Hok as [Hu Hm]. cbn [xspec_step fst snd]. split; [|reflexivity]. apply shm_store_except; assumption.
+  - destruct Hok as [Hu Hm]. cbn [xspec_step fst snd]. split; [|reflexivity].
+    pose proof (money_pos_fits u (file s) Hu Hl) as Hfit.
+    split; cbn [file shm].
+    + rewrite write_at_length by (rewrite enc32_length; exact Hfit). exact Hl.
+    + intros u' Hu'. destruct (Ha u' Hu') as [Hs [Hi Hf]]. split; [exact Hs|]. split; [exact Hi|].
+      destruct (Z.eq_dec u' u) as [->|Hne]; [rewrite bupd_same; discriminate|].
+      rewrite bupd_other by exact Hne. intros Hd.
+      rewrite money_field_at. rewrite field_at_write_other; [rewrite <- money_field_at; apply Hf; exact Hd|exact Hfit|].
+      apply money_pos_apart; auto.
+Qed.
+
+Lemma xrun_cons s x r : xrun s (x :: r) = (fst (xrun (fst (xstep s x)) r), snd (xstep s x) :: snd (xrun (fst (xstep s x)) r)).
+Proof. cbn [xrun]. destruct (xstep s x) as [s1 o]. cbn [fst snd]. destruct (xrun s1 r) as [s2 os]. reflexivity. Qed.
+Lemma xspec_run_cons b d x r :
+  xspec_run b d (x :: r) =
+  (fst (xspec_run (fst (fst (xspec_step b d x))) (snd (fst (xspec_step b d x))) r),
+   snd (xspec_step b d x) :: snd (xspec_run (fst (fst (xspec_step b d x))) (snd (fst (xspec_step b d x))) r)).
+Proof.
+  cbn [xspec_run]. destruct (xspec_step b d x) as [[b1 d1] o]. cbn [fst snd].
+  destruct (xspec_run b1 d1 r) as [[b2 d2] os]. reflexivity.
+Qed.
+
+(* all histories *)
+Lemma xrun_except : forall h s b d, AgreeExcept s b d -> xhist_ok b d h ->
+  AgreeExcept (fst (xrun s h)) (fst (fst (xspec_run b d h))) (snd (fst (xspec_run b d h))) /\
+  snd (xrun s h) = snd (xspec_run b d h).
+Proof.
+  induction h as [|x r IH]; intros s b d HA Hok.
+  - cbn. split; [exact HA|reflexivity].
+  - destruct Hok as [Hx Hr]. rewrite xrun_cons, xspec_run_cons. cbn [fst snd].
+    destruct (xstep_except s b d x HA Hx) as [HA1 Ho]. destruct (IH _ _ _ HA1 Hr) as [HA2 Hos].
+    split; [exact HA2|]. rewrite Ho, Hos. reflexivity.
+Qed.
+
+Lemma xhist_ok_firstn : forall n h b d, xhist_ok b d h -> xhist_ok b d (firstn n h).
+Proof.
+  induction n as [|n IH]; intros h b d H; [exact I|]. destruct h as [|x r]; [exact I|].
+  destruct H as [Hx Hr]. cbn [firstn xhist_ok]. split; [exact Hx|apply IH; exact Hr].
+Qed.
+
+(* after every prefix of every history in which writes are refused and disagreement is planted anywhere: the segment,
+   MoneyOf and arithmetic agree on every valid slot, the Money field of the record too on every slot that is not dirty *)
+Lemma resync_every_step : forall h s b n, Agree s b -> xhist_ok b (fun _ => false) h ->
+  let h' := firstn n h in
+  let s' := fst (xrun s h') in let b' := fst (fst (xspec_run b (fun _ => false) h')) in
+  let d' := snd (fst (xspec_run b (fun _ => false) h')) in
+  (forall u, valid u ->
+     shm s' (u - 1) = b' u /\ money_of s' u = Ok (b' u) /\ (d' u = false -> money_field (file s') u = b' u)) /\
+  snd (xrun s h') = snd (xspec_run b (fun _ => false) h').
+Proof.
+  intros h s b n HA Hok h' s' b' d'.
+  destruct (xrun_except h' s b (fun _ => false) (agree_is_except s b HA) (xhist_ok_firstn n h b _ Hok)) as [[Hl Ha] Hx].
+  split; [|exact Hx]. intros u Hu. destruct (Ha u Hu) as [H1 [_ H3]]. split; [exact H1|]. split; [|exact H3].
+  subst s' b'. rewrite money_of_valid by exact Hu. rewrite H1. reflexivity.
+Qed.
+
+(* the repair, one call, NO agreement between file and segment assumed for the slot (nor for any other): a successful
+   set / credit / debit / whole-record write-back leaves the three views of its slot equal *)
+Lemma write_resyncs s b d x u : AgreeExcept s b d -> xop_ok b x ->
+  (exists m, x = XOk (OpSet u m)) \/ (exists m, x = XOk (OpDe u m)) \/ (exists rec, x = XOk (OpRewrite u rec)) ->
+  let s' := fst (xstep s x) in let b' := fst (fst (xspec_step b d x)) in
+  shm s' (u - 1) = b' u /\ money_field (file s') u = b' u /\ snd (xstep s x) = OVal (b' u) /\
+  b' u = match x with XOk (OpSet _ m) => m | XOk (OpDe _ m) => de_value b u m | _ => b u end.
+Proof.
+  intros HA Hok Hx s' b'.
+  assert (Hu : valid u).
+  { destruct Hx as [[m ->]|[[m ->]|[rec ->]]]; cbn [xop_ok op_ok] in Hok; tauto. }
+  destruct (xstep_except s b d x HA Hok) as [[_ Ha] Ho].
+  assert (Hd : snd (fst (xspec_step b d x)) u = false).
+  { destruct Hx as [[m ->]|[[m ->]|[rec ->]]]; cbn [xspec_step fst snd]; apply bupd_same. }
+  destruct (Ha u Hu) as [H1 [_ H3]]. split; [exact H1|]. split; [exact (H3 Hd)|]. subst s' b'.
+  destruct Hx as [[m ->]|[[m ->]|[rec ->]]]; cbn [xspec_step spec_step fst snd] in *.
+  - rewrite upd_same. split; [exact Ho|reflexivity].
+  - cbv zeta in *. cbn [fst snd] in *. rewrite upd_same. split; [|reflexivity]. rewrite Ho. unfold de_value. reflexivity.
+  - split; [exact Ho|reflexivity].
+Qed.
+
+(* ------------------------------------------------------------------ any table size (the production build: 2 000 000 slots) *)
+Section AnySize.
+Variable N : Z.
+Hypothesis HN : 0 < N < 2147483648.
+
+Lemma g_guards u : gvalid N u ->
+  (u <=? 0) || (N <? u) = false /\ (u <? 1) || (N <? u) = false /\ wrap32 (u - 1) = u - 1 /\
+  g_in_range N (u - 1) = true /\ g_valid N u = true.
+Proof.
+  intros [H1 H2]. repeat split.
+  - destruct (Z.leb_spec u 0); destruct (Z.ltb_spec N u); cbn; try reflexivity; lia.
+  - destruct (Z.ltb_spec u 1); destruct (Z.ltb_spec N u); cbn; try reflexivity; lia.
+  - apply wrap32_small. lia.
+  - unfold g_in_range. apply andb_true_intro. split; [apply Z.leb_le|apply Z.ltb_lt]; lia.
+  - unfold g_valid. apply andb_true_intro. split; apply Z.leb_le; lia.
+Qed.
+
+Lemma g_money_of_valid s u : gvalid N u -> g_money_of N s u = Ok (gshm s (u - 1)).
+Proof. intros H. destruct (g_guards u H) as [_ [_ [Hw [Hr _]]]]. unfold g_money_of. cbv zeta. rewrite Hw, Hr. reflexivity. Qed.
+
+Lemma g_set_valid w s u m : gvalid N u ->
+  g_set N w s u m =
+  if w then (mkg (upd (gshm s) (u - 1) m) (upd (gfld s) u m), OVal m)
+  else (mkg (upd (gshm s) (u - 1) m) (gfld s), OErr m ERR_IO).
+Proof.
+  intros H. destruct (g_guards u H) as [G1 [G2 [Hw [Hr _]]]]. unfold g_set. rewrite G1. cbv zeta. rewrite Hw, Hr. cbn [negb].
+  rewrite G2. destruct w; [|reflexivity].
+  rewrite g_money_of_valid by exact H. cbn [gshm]. rewrite upd_same. reflexivity.
+Qed.
+
+Lemma g_store s b d u m (w : bool) : GAgree N s b d -> gvalid N u ->
+  GAgree N (if w then mkg (upd (gshm s) (u - 1) m) (upd (gfld s) u m) else mkg (upd (gshm s) (u - 1) m) (gfld s))
+         (upd b u m) (bupd d u (negb w)).
+Proof.
+  intros Ha Hu u' Hu'. destruct (Z.eq_dec u' u) as [->|Hne].
+  - destruct w; cbn [gshm gfld negb]; rewrite !upd_same, bupd_same; (split; [reflexivity|]); [reflexivity|discriminate].
+  - destruct (Ha u' Hu') as [Hs Hf].
+    destruct w; cbn [gshm gfld]; rewrite upd_other by lia; rewrite (upd_other b) by exact Hne; rewrite bupd_other by exact Hne;
+      (split; [exact Hs|]); [rewrite upd_other by exact Hne|]; exact Hf.
+Qed.
+
+Lemma g_step_agree s b d x : GAgree N s b d -> g_op_ok N b x ->
+  GAgree N (fst (g_step N s x)) (fst (fst (xspec_step b d x))) (snd (fst (xspec_step b d x))) /\
+  snd (g_step N s x) = snd (xspec_step b d x).
+Proof.
+  intros Ha Hok.
+  assert (Hset : forall (w : bool) u m, gvalid N u ->
+            GAgree N (fst (g_set N w s u m)) (upd b u m) (bupd d u (negb w)) /\
+            snd (g_set N w s u m) = if w then OVal m else OErr m ERR_IO).
+  { intros w u m Hu. rewrite g_set_valid by exact Hu. pose proof (g_store s b d u m w Ha Hu) as G.
+    destruct w; cbn [fst snd]; (split; [exact G|reflexivity]). }
+  assert (Hde : forall (w : bool) u m, gvalid N u -> ((m < 0 /\ b u < - m) \/ int32 (b u + m)) ->
+            g_de N w s u m = g_set N w s u (de_value b u m)).
+  { intros w u m Hu Hsum. destruct (g_guards u Hu) as [G1 _]. unfold g_de. rewrite G1.
+    rewrite g_money_of_valid by exact Hu. destruct (Ha u Hu) as [Hs _]. rewrite Hs. unfold de_value.
+    destruct ((m <? 0) && (b u <? - m)) eqn:E; [reflexivity|].
+    assert (Hin : int32 (b u + m)).
+    { destruct Hsum as [[H1 H2]|H]; [|exact H]. apply andb_false_iff in E. destruct E as [E|E]; apply Z.ltb_ge in E; lia. }
+    rewrite wrap32_small by exact Hin. reflexivity. }
+  destruct x as [o|o|u m|u m]; cbn [g_op_ok] in Hok.
+  - destruct o as [u m|u m|u|u rec|u k bs]; cbn [g_step xspec_step spec_step fst snd].
+    + destruct Hok as [Hu Hm]. exact (Hset true u m Hu).
+    + destruct Hok as [Hu [Hm Hsum]]. rewrite (Hde true u m Hu Hsum). cbv zeta. cbn [fst snd]. fold (de_value b u m).
+      exact (Hset true u (de_value b u m) Hu).
+    + rewrite g_money_of_valid by exact Hok. destruct (Ha u Hok) as [Hs _]. rewrite Hs. split; [exact Ha|reflexivity].
+    + destruct (g_guards u Hok) as [_ [_ [_ [_ Hv]]]]. unfold g_rewrite. rewrite Hv. cbn [negb].
+      rewrite g_money_of_valid by exact Hok. destruct (Ha u Hok) as [Hs _]. rewrite Hs. cbn [fst snd]. split; [|reflexivity].
+      intros u' Hu'. cbn [gshm gfld]. destruct (Ha u' Hu') as [Hs' Hf']. split; [exact Hs'|].
+      destruct (Z.eq_dec u' u) as [->|Hne]; [rewrite upd_same; reflexivity|].
+      rewrite upd_other by exact Hne. rewrite bupd_other by exact Hne. exact Hf'.
+    + destruct (g_guards u Hok) as [_ [_ [_ [_ Hv]]]]. rewrite Hv. cbn [negb fst snd]. split; [exact Ha|reflexivity].
+  - destruct o as [u m|u m|u|u rec|u k bs]; cbn [g_step xspec_step fst snd].
+    + destruct Hok as [Hu Hm]. exact (Hset false u m Hu).
+    + destruct Hok as [Hu [Hm Hsum]]. rewrite (Hde false u m Hu Hsum). exact (Hset false u (de_value b u m) Hu).
+    + rewrite g_money_of_valid by exact Hok. destruct (Ha u Hok) as [Hs _]. rewrite Hs. split; [exact Ha|reflexivity].
+    + destruct (g_guards u Hok) as [_ [_ [_ [_ Hv]]]]. unfold g_rewrite. rewrite Hv. cbn [negb].
+      rewrite g_money_of_valid by exact Hok. destruct (Ha u Hok) as [Hs _]. rewrite Hs. split; [exact Ha|reflexivity].
+    + destruct (g_guards u Hok) as [_ [_ [_ [_ Hv]]]]. rewrite Hv. cbn [negb fst snd]. split; [exact Ha|reflexivity].
+  - destruct Hok as [Hu Hm]. cbn [g_step xspec_step fst snd]. split; [|reflexivity]. exact (g_store s b d u m false Ha Hu).
+  - destruct Hok as [Hu Hm]. cbn [g_step xspec_step fst snd]. split; [|reflexivity].
+    intros u' Hu'. cbn [gshm gfld]. destruct (Ha u' Hu') as [Hs' Hf']. split; [exact Hs'|].
+    destruct (Z.eq_dec u' u) as [->|Hne]; [rewrite bupd_same; discriminate|].
+    rewrite upd_other by exact Hne. rewrite bupd_other by exact Hne. exact Hf'.
+Qed.
+
+Lemma g_run_cons s x r :
+  g_run N s (x :: r) = (fst (g_run N (fst (g_step N s x)) r), snd (g_step N s x) :: snd (g_run N (fst (g_step N s x)) r)).
+Proof. cbn [g_run]. destruct (g_step N s x) as [s1 o]. cbn [fst snd]. destruct (g_run N s1 r) as [s2 os]. reflexivity. Qed.
+
+Lemma g_run_agree : forall h s b d, GAgree N s b d -> g_hist_ok N b d h ->
+  GAgree N (fst (g_run N s h)) (fst (fst (xspec_run b d h))) (snd (fst (xspec_run b d h))) /\
+  snd (g_run N s h) = snd (xspec_run b d h).
+Proof.
+  induction h as [|x r IH]; intros s b d HA Hok.
+  - cbn. split; [exact HA|reflexivity].
+  - destruct Hok as [Hx Hr]. rewrite g_run_cons, xspec_run_cons. cbn [fst snd].
+    destruct (g_step_agree s b d x HA Hx) as [HA1 Ho]. destruct (IH _ _ _ HA1 Hr) as [HA2 Hos].
+    split; [exact HA2|]. rewrite Ho, Hos. reflexivity.
+Qed.
+
+Lemma g_hist_ok_firstn : forall n h b d, g_hist_ok N b d h -> g_hist_ok N b d (firstn n h).
+Proof.
+  induction n as [|n IH]; intros h b d H; [exact I|]. destruct h as [|x r]; [exact I|].
+  destruct H as [Hx Hr]. cbn [firstn g_hist_ok]. split; [exact Hx|apply IH; exact Hr].
+Qed.
+End AnySize.
+
+(* for every table size, after every prefix of every history (refused writes and planted disagreement anywhere), on
+   every slot 1..N: segment = MoneyOf = arithmetic, and = the Money field of the record unless the slot is dirty *)
+Lemma any_size_every_step : forall N, 0 < N < 2147483648 -> forall h s b d n, GAgree N s b d -> g_hist_ok N b d h ->
+  let h' := firstn n h in
+  let s' := fst (g_run N s h') in let b' := fst (fst (xspec_run b d h')) in let d' := snd (fst (xspec_run b d h')) in
+  (forall u, 1 <= u <= N ->
+     gshm s' (u - 1) = b' u /\ g_money_of N s' u = Ok (b' u) /\ (d' u = false -> gfld s' u = b' u)) /\
+  snd (g_run N s h') = snd (xspec_run b d h').
+Proof.
+  intros N HN h s b d n HA Hok h' s' b' d'.
+  destruct (g_run_agree N HN h' s b d HA (g_hist_ok_firstn N n h b d Hok)) as [Ha Hx].
+  split; [|exact Hx]. intros u Hu. destruct (Ha u Hu) as [H1 H2]. split; [exact H1|]. split; [|exact H2].
+  subst s' b'. rewrite (g_money_of_valid N HN) by exact Hu. rewrite H1. reflexivity.
+Qed.
+
+(* the two builds *)
+Lemma sizes_ok : 0 < g_size 0 < 2147483648 /\ 0 < g_size 1 < 2147483648 /\ g_size 0 = MAXU /\ g_size 1 = 2000000.
+Proof. vm_compute. repeat split; discriminate || reflexivity. Qed.
+
+Lemma production_size_every_step : forall h s b d n, GAgree (g_size 1) s b d -> g_hist_ok (g_size 1) b d h ->
+  let h' := firstn n h in
+  let s' := fst (g_run (g_size 1) s h') in let b' := fst (fst (xspec_run b d h')) in let d' := snd (fst (xspec_run b d h')) in
+  (forall u, 1 <= u <= 2000000 ->
+     gshm s' (u - 1) = b' u /\ g_money_of (g_size 1) s' u = Ok (b' u) /\ (d' u = false -> gfld s' u = b' u)) /\
+  snd (g_run (g_size 1) s h') = snd (xspec_run b d h').
+Proof.
+  intros h s b d n HA Hok. destruct sizes_ok as [_ [H1 [_ H2]]].
+  pose proof (any_size_every_step (g_size 1) H1 h s b d n HA Hok) as G. cbv zeta in *. rewrite H2 in G at 1. exact G.
+Qed.
+
+(* ------------------------------------------------------------------ non-vacuity of the refused-write / any-size statements *)
+(* set 100; set 250 refused (the segment already holds 250, the file still 100, an error is returned); the repeated set 250
+   succeeds and brings the file into line; credit 0 and a debit keep it there *)
+Definition ex_xhist : list xop :=
+  [XOk (OpSet 1 100); XRefused (OpSet 1 250); XOk (OpSet 1 250); XOk (OpDe 1 0); XPlantFile MAXU 77; XOk (OpSet MAXU 0);
+   XPlantShm 2 9; XOk (OpRewrite 2 ex_zero_rec)].
+Example ex_xhist_ok : xhist_ok (fun u => money_field ex_file u) (fun _ => false) ex_xhist.
+Proof. vm_compute. repeat split; try discriminate; right; split; discriminate. Qed.
+Example ex_refused_leaves_disagreement :
+  let s := fst (xrun (cold_load ex_file) (firstn 2 ex_xhist)) in
+  shm s 0 = 250 /\ money_field (file s) 1 = 100 /\ snd (xrun (cold_load ex_file) (firstn 2 ex_xhist)) = [OVal 100; OErr 250 ERR_IO].
+Proof. vm_compute. repeat split. Qed.
+Example ex_repeat_resyncs :
+  let s := fst (xrun (cold_load ex_file) ex_xhist) in
+  shm s 0 = 250 /\ money_field (file s) 1 = 250 /\ shm s (MAXU - 1) = 0 /\ money_field (file s) MAXU = 0 /\
+  shm s 1 = 9 /\ money_field (file s) 2 = 9.
+Proof. vm_compute. repeat split. Qed.
+(* the production table: slots 65536, 65537 and the last one *)
+Definition ex_ghist : list xop :=
+  [XOk (OpSet 65537 100); XOk (OpDe 65537 5); XOk (OpDe 65537 (-30)); XOk (OpSet 2000000 7); XRefused (OpDe 2000000 1);
+   XOk (OpDe 2000000 0); XOk (OpSet 65536 3); XOk (OpRewrite 65537 ex_zero_rec)].
+Example ex_ghist_ok : g_hist_ok (g_size 1) (fun _ => 0) (fun _ => false) ex_ghist.
+Proof. vm_compute. repeat split; try discriminate; right; split; discriminate. Qed.
+Example ex_ghist_run :
+  let s := fst (g_run (g_size 1) (mkg (fun _ => 0) (fun _ => 0)) ex_ghist) in
+  gshm s 65536 = 75 /\ gfld s 65537 = 75 /\ gshm s 1999999 = 8 /\ gfld s 2000000 = 8 /\ gfld s 65536 = 3.
+Proof. vm_compute. repeat split. Qed.
